@@ -228,8 +228,8 @@ class DelegWorld(EnvelopeWorld):
                     op["spec"] = rng.choice(["0.6.0", "0.1.0", "0.0.5", "1.0.0", "2.3.4", "0.6", "v0.6.0", "0.6.0-rc1", "", "é"])
                 if rng.random() < 0.2:
                     op["ts"] = rng.choice(["2024-02-29T23:59:59Z", "1999-12-31T23:59:59Z"])
-                if rng.random() < 0.15:
-                    op["extra"] = rng.choice(["note", 7])
+                if rng.random() < 0.25:
+                    op["extra"] = rng.choice(["note", 7, "é", "中文", "\udc80", "\U0001f600", "comment with spaces"])
                 if rng.random() < 0.1:
                     op["timestamp_only"] = True
                 return op
